@@ -20,7 +20,22 @@ pub fn run(k: &str, c: &Value) -> Value {
         "c13.section" => {
             let mesh = mesh_of(c);
             let n = UnitVec3::new_normalize(v3(&c["n"]));
-            let plane = Plane3::new(n, fx(&c["d"]));
+            // the same plane through each of its constructors: (normal, d), three of its points, normal + point, a surface point
+            let plane = {
+                let d = fx(&c["d"]);
+                let nv = n.into_inner();
+                let p0 = engeom::Point3::from(nv * d);
+                let helper = if nv.x.abs() < 0.9 { engeom::Vector3::x() } else { engeom::Vector3::y() };
+                let u = nv.cross(&helper).normalize();
+                let v = nv.cross(&u);
+                let (s1, s2) = if c["via_s"].is_null() { (1.0, 1.0) } else { (fx(&c["via_s"][0]), fx(&c["via_s"][1])) };
+                match c["via"].as_str().unwrap_or("nd") {
+                    "three" => Plane3::from((&p0, &(p0 + u * s1), &(p0 + v * s2))),
+                    "pn" => Plane3::from((&n, &(p0 + u * s1 + v * s2))),
+                    "sp" => Plane3::from(&engeom::SurfacePoint3::new(p0 + u * s2, n)),
+                    _ => Plane3::new(n, d),
+                }
+            };
             let tol = fx(&c["tol"]);
             // what parry hands to engeom
             let raw = match mesh.tri_mesh().intersection_with_local_plane(&plane.normal, plane.d, 1.0e-6) {
